@@ -205,6 +205,11 @@ static pthread_barrier_t bar;
             ct = 'U32' if t == 'i32' else 'U64'
             out.append('  case %d: return (U64)m_%s_%d(i, ADDR, (%s)v);' % (fi, op, fi, ct))
         out.append('  } return 0; }')
+    out.append('static U64 do_cmpxchg(mInstance* i, U64 e, U64 v) { switch (FL) {')
+    for fi, (t, w, nb) in enumerate(SHAPES):
+        ct = 'U32' if t == 'i32' else 'U64'
+        out.append('  case %d: return (U64)m_cmpxchg_%d(i, ADDR, (%s)e, (%s)v);' % (fi, fi, ct, ct))
+    out.append('  } return 0; }')
     out.append('static void do_incr(mInstance* i, U32 n) { switch (FL) {')
     for fi in range(len(SHAPES)):
         out.append('  case %d: m_incr_%d(i, ADDR, n); return;' % (fi, fi))
@@ -236,6 +241,23 @@ static void* worker(void* p) {
         case 6: w->olds[k] = do_xor(w->inst, (U64)1 << (w->tid % (FL_BITS))); break;
         case 7: do_lock(w->inst, 1); break;
         case 8: if (w->tid % 2) do_incr(w->inst, 1); else (void)do_add(w->inst, 1); break;   /* fetch-add against compare-exchange loops on one cell */
+        case 9:
+            /* thread 0 stores a fresh value and reads it back; everybody else performs read-modify-writes that leave the cell as it
+               is (add 0, sub 0, or 0, and ~0, xor 0, cmpxchg x->x): in every total order the load returns the value just stored */
+            if (w->tid == 0) {
+                U64 m = FL_BITS == 64 ? ~(U64)0 : (((U64)1 << FL_BITS) - 1);
+                U64 v = ((U64)(k + 1) * 0x9E3779B97F4A7C15ull | 1) & m, x;
+                do_store(w->inst, v); x = do_load(w->inst);
+                if (x != v) { if (!w->olds[0]) { w->olds[1] = (U64)k; w->olds[2] = v; w->olds[3] = x; } w->olds[0]++; }
+            } else switch ((w->tid + k) % 6) {
+                case 0: (void)do_add(w->inst, 0); break;
+                case 1: (void)do_sub(w->inst, 0); break;
+                case 2: (void)do_or(w->inst, 0); break;
+                case 3: (void)do_and(w->inst, ~(U64)0); break;
+                case 4: (void)do_xor(w->inst, 0); break;
+                default: { U64 c = do_load(w->inst); (void)do_cmpxchg(w->inst, c, c); } break;
+            }
+            break;
         }
     }
     return NULL;
@@ -295,7 +317,7 @@ def stress_binary(build, imported=False):
     return _bin[key]
 
 
-MODES = ['add', 'sub', 'xchg', 'cas-incr', 'or', 'and', 'xor', 'cas-lock', 'add-vs-cas']
+MODES = ['add', 'sub', 'xchg', 'cas-incr', 'or', 'and', 'xor', 'cas-lock', 'add-vs-cas', 'store-vs-rmw']
 
 
 def run_stress(case):
@@ -381,6 +403,14 @@ def run_stress(case):
         if final != (init + total) & M:
             return 'lost-update', ('fetch-add against compare-exchange increments, flavour %d T=%d N=%d: final %x, expected %x: the two '
                                    'kinds of read-modify-write do not exclude each other' % (fl, T, N, final, (init + total) & M)), inter
+    elif mode == 9:
+        inter = True
+        o = olds.get(0, [0, 0, 0, 0])
+        if o[0]:
+            return 'lost-update', ('atomic store against value-preserving read-modify-writes (add 0, or 0, cmpxchg x->x, ...), flavour %d T=%d '
+                                   'N=%d build %s: %d of %d stores were undone - store number %d wrote %x, the load right after it '
+                                   'returned %x: a concurrent read-modify-write wrote back the value it had read before the store' % (
+                                       fl, T, N, build, o[0], N, o[1], o[2], o[3])), inter
     elif mode == 7:
         inter = True
         if counter != total or final != 0:
@@ -402,7 +432,7 @@ def stress_task(wid, seed, params):
     for ci in range(params['ncases']):
         ch = Chooser(seed * 1000003 + ci)
         fl = (wid + ci) % len(SHAPES)
-        mode = (wid // 7 + ci // 7 + ch.below(9)) % 9
+        mode = (wid // 7 + ci // 7 + ch.below(10)) % 10
         bits = SHAPES[fl][2] * 8
         T = ch.pick((2, 3, 4, 8))
         cap = (1 << bits) - 2
@@ -418,6 +448,9 @@ def stress_task(wid, seed, params):
             case['init'] = 0
         if mode == 7:
             case['N'] = N = ch.pick((2000, 20000, 100000)) if 'tsan' not in build else 2000
+        if mode == 9:
+            case['N'] = N = ch.pick((20000, 100000, 400000)) if 'tsan' not in build else 3000
+            case['T'] = T = max(T, 2)
         try:
             sig, msg, inter = run_stress(case)
         except cexec.InfraError as e:
